@@ -61,6 +61,19 @@ def run_impl(binary, cases=None, seed=1, n=100):
     return out, log
 
 
+def run_driver(binary, seed, n):
+    tmp = os.path.join(vlib.BUILD, 'c19_drv_%d.json' % os.getpid())
+    rc, log = vlib.run([binary, '--seed', str(seed), '--drv-n', str(n), '--drv-out', tmp])
+    if rc != 0:
+        return None, log
+    out = json.load(open(tmp))
+    os.remove(tmp)
+    return out, log
+
+
+DRV_HEADER = 'From VDrv Require Import Migration.\nOpen Scope N_scope.\n'
+
+
 def nontrivial(case):
     return case['class'] in ('uni', 'bidir') and sum(case['completed']) >= 1 and case['chunks'] >= 2
 
@@ -98,7 +111,7 @@ def main(argv):
     rep.checker_cmd = 'make -C coq props/C19.vo && coqc props/C19.v (Print Assumptions) && coqc cases/C19/s*.v (vm_compute mismatches)'
     rep.trusted = ['Coq 8.16.1 kernel + vm_compute',
                    'hand-written model coq/mem/Pmc.v of amd/timing/pagemigrationcontroller/pmc.go (tied by sampling, not verified)',
-                   'hand-written model coq/drv/Migration.v of Driver.preparePageForMigration / allocatePageWithGivenVAddr (not tied to the Go code)',
+                   'hand-written model coq/drv/Migration.v of Driver.preparePageForMigration / allocatePageWithGivenVAddr / regular device free list / vm.PageTable (tied by sampling through a verif-tagged export hook); the driver counter automaton (dq) is a reading of sendMigrationReqToCP/processPageMigrationRspFromCP and is not tied',
                    'Go harness harness/cmd/c19 (stub connection, network and byte-array memories, ID/port renumbering, store monitor)',
                    'akita port = two bounded FIFOs of capacity 1; message IDs modelled as (creator, counter) pairs; addresses do not wrap at 2^64']
     rep.assumptions = ['theorems: the environment of the two controllers is any finite sequence of ticks, transfers, deliveries (any order), memory services (any order) and refusals; '
@@ -111,6 +124,11 @@ def main(argv):
     replay_file = None
     if '--replay' in argv:
         replay_file = argv[argv.index('--replay') + 1]
+        try:
+            if 'driver_case' in json.load(open(replay_file)):
+                replay_file = None   # driver scenarios are regenerated from the seed: run the whole check
+        except (OSError, ValueError):
+            pass
 
     ok, log, binary = vlib.go_build('c19')
     rep.obligation('harness builds against the repo working tree', ok)
@@ -152,6 +170,36 @@ def main(argv):
             rep.violation({'broken': 'harness run failed', 'log': log[-4000:]}, nofail=True)
             return rep.finish()
         cases += gen
+
+    # ---- driver side: real preparePageForMigration calls (hook in the worktree)
+    dcases = []
+    if not replay_file:
+        dcases, dlog = run_driver(binary, vlib.seed(), 400 if thorough else 80)
+        if dcases is None:
+            rep.obligation('harness run (driver scenarios)', False)
+            rep.violation({'broken': 'driver scenarios failed to run', 'log': dlog[-4000:]}, nofail=True)
+            return rep.finish()
+        dbad = [c for c in dcases if c.get('viol')]
+        okd, dmism, dclog = vlib.eval_cases(PROP, DRV_HEADER, [c['coq'] for c in dcases], shard_size=40,
+                                            checker='mmismatches', ty='mcase')
+        rep.obligation('correspondence: %d calls of Driver.preparePageForMigration evaluated by the model' % len(dcases),
+                       okd and not dmism)
+        rep.coverage.update({'driver_calls': len(dcases), 'driver_calls_panicked': sum(1 for c in dcases if c['panicked']),
+                             'driver_model_mismatches': len(dmism), 'driver_monitor_failures': len(dbad)})
+        if dbad:
+            c = dict(dbad[0])
+            c.pop('coq', None)
+            rep.violation({'property': PROP, 'what': c['viol'], 'driver_case': c}, text='driver: ' + c['viol'])
+            return rep.finish()
+        if dmism or not okd:
+            i = dmism[0][0] if dmism else 0
+            c = dict(dcases[i]) if dcases else {}
+            c.pop('coq', None)
+            rep.violation({'property': PROP, 'broken': 'correspondence between coq/drv/Migration.v and Driver.preparePageForMigration / '
+                           'allocatePageWithGivenVAddr: call %d differs; theorem migration_updates_only_target no longer speaks about this code' % i,
+                           'driver_case': c, 'log': dclog[-2000:]}, nofail=True,
+                          text='driver model/implementation mismatch at call %d' % i)
+            return rep.finish()
 
     # ---- property monitor on what the implementation did
     bad = [(i, monitor(c)) for i, c in enumerate(cases)]
